@@ -1,8 +1,14 @@
 """Replay a counterexample script against the real crate: python3-vt -m checks.replay_cli <script>"""
+import os
 import sys
 from checks import replay
 
 if __name__ == '__main__':
-    res, out = replay.run_script(open(sys.argv[1]).read(), sys.argv[1] + '.tmp')
-    print(out)
-    replay.cleanup()
+    tmp = sys.argv[1] + '.tmp'
+    try:
+        res, out = replay.run_script(open(sys.argv[1]).read(), tmp)
+        print(out)
+    finally:
+        replay.cleanup()
+        if os.path.exists(tmp):
+            os.remove(tmp)
